@@ -34,6 +34,10 @@ package testutil
 //@ domain a-size-that-can-be-buffered: 0 <= size && size <= (1 << 32)
 //@ ensures a-file-entry-has-no-path-yet: err == nil ==> result0.Path == "" && len(result0.Children) == 0
 //@ at return assert a-file-entry-carries-the-size-the-file-builder-reported: err == nil ==> result0.TSize == uint64(gotSize)
+// The file is built from exactly `size` bytes of the random source, read through a tee that records
+// what the builder consumed (the recorded bytes become the entry's Content).
+//@ at call io.LimitReader#1 assert at-most-the-requested-size-is-taken-from-the-random-source: callee_r == o.randReader && callee_n == int64(size)
+//@ at call data/builder.BuildUnixFSFile#1 assert the-builder-reads-through-the-recording-tee-with-the-chosen-chunker: callee_r == delimited && callee_chunker == o.chunker
 
 //@ func testutil.applyOptions
 //@ ensures options-are-always-there: result != nil
@@ -51,6 +55,10 @@ package testutil
 //@ func testutil.UnixFSDirectory$1
 //@ at call testutil.WithDirname#1 assert a-sub-directory-is-generated-under-the-path-it-was-asked-for: callee_dirname == name
 //@ at return assert a-file-child-carries-the-path-it-was-asked-for: err == nil ==> entry.Path == name
+// Options are applied in order and the last one wins: the sub-directory's own name and sharding
+// choice come after every inherited option.
+//@ at call testutil.UnixFSDirectory#1 assert the-sub-directory-options-come-after-the-inherited-ones: len(callee_opts) == len(opts) + 2 && (forall i int :: 0 <= i && i < len(opts) ==> callee_opts[i] == opts[i])
+//@ inst the-sub-directory-options-come-after-the-inherited-ones: i: i
 
 // BuildDirectory: the directory is packed over exactly the children given, with a fanout of 16
 // (bit width 4) when sharded and unsharded otherwise.
